@@ -25,9 +25,9 @@ SHAPES = [
 ]
 
 
-def layout(decls):
+def layout(decls, base=DATA):
     """Reference layout: (byte image incl. explicit zeros, variables {name: (addr, stride, count)}, end address, don't-care words)."""
-    addr = DATA
+    addr = base
     mem = {}
     vars_ = {}
     dontcare = set()
@@ -82,17 +82,34 @@ def frame(data, body, order):
 DIRTY = ".data\nd: .word " + ", ".join(["0xFFFFFFFF"] * 40) + "\ne: .string \"0123456789\"\n.text\naddi x1, x0, 1\n"
 
 
+DIRTY_REJECTED = ".data\nd: .word " + ", ".join(["0xEEEEEEEE"] * 40) + "\ne: .string \"9876543210\"\n.text\naddi x1, x0, 1\nlw x2, undeclared\n"
+
+
 def check_decls(decls, radix, order, with_stores, p):
     """Assemble + run accessor programs for this data segment. Returns list of (field, detail, text)."""
-    mem, vars_, end, dontcare = layout(decls)
-    # every other case is loaded into a simulation that has loaded (not run) another program with a bigger, non-zero data segment
-    before = DIRTY if (len(decls) + radix + order) % 2 == 0 else None
-    if before:
-        p.counters["loaded-over-an-earlier-program"] += 1
+    # the first data address is a property of the data memory the state was built with: rotate the default memory with
+    # memories whose valid range starts lower / at 0 / higher (only without a data cache, which has its own rotation below)
+    ck = (sum(len(str(v)) for _k, v in decls) + radix + 2 * order) % 4
+    mv = (3 * len(decls) + sum(len(str(v)) for _k, v in decls) // 4 + radix + order) % 7 if ck == 0 else 0
+    base = {4: 0x1000, 5: 0, 6: 0x8000}.get(mv, DATA)
+    mem, vars_, end, dontcare = layout(decls, base)
+    # two of three cases are loaded into a simulation with a history: (1) it has loaded (not run) another program with a
+    # bigger, non-zero data segment; (2) it has loaded this very text, then a program with such a data segment that is
+    # REJECTED after its data was written, and now loads this text again
+    hist = (len(decls) + radix + order) % 3
+    before_of = {0: lambda t: None, 1: lambda t: DIRTY, 2: lambda t: [t, DIRTY_REJECTED]}[hist]
+    if hist:
+        p.counters["loaded-over-an-earlier-program" if hist == 1 else "loaded-again-after-a-rejected-program"] += 1
     # the layout does not depend on the data-cache configuration: rotate none / write-back with multi-word blocks / write-through
     from vf.adapt import rv as _rv
-    ck = (sum(len(str(v)) for _k, v in decls) + radix + 2 * order) % 4
     simkw = {}
+    if base != DATA:
+        from architecture_simulator.uarch.memory.memory import AddressingType, Memory
+        from architecture_simulator.uarch.riscv.riscv_architectural_state import RiscvArchitecturalState
+        mk_state = lambda: RiscvArchitecturalState(memory=Memory(AddressingType.BYTE, 32, True, range(base, 1 << 32)))  # noqa
+        p.counters["data-memory-with-another-first-address"] += 1
+    else:
+        mk_state = None
     if ck == 1:
         simkw["data_cache"] = _rv.cache_opts(0, 1, 2, "wb", "lru", 1)
     elif ck == 2:
@@ -135,7 +152,7 @@ def check_decls(decls, radix, order, with_stores, p):
         text = frame(data, "\n".join(lines), order)
         p.evaluations += 1
         try:
-            a = asm.assemble(text, before=before, **simkw)
+            a = asm.assemble(text, before=before_of(text), **(dict(simkw, state=mk_state()) if mk_state else simkw))
         except CaseTimeout:
             return [("termination", "load_program did not terminate", text)]
         except Exception as e:  # noqa
@@ -144,7 +161,7 @@ def check_decls(decls, radix, order, with_stores, p):
         if first:
             first = False
             # (i) byte image over the whole segment plus slack
-            for x in range(DATA, ((end + 3) & ~3) + 8):
+            for x in range(base, ((end + 3) & ~3) + 8):
                 got = int(sim.state.memory.read_byte(x))
                 if got != mem.get(x, 0):
                     bad.append(("byte-image", f"byte at {x:#x} is {got:#x}, expected {mem.get(x, 0):#x}", text))
@@ -195,7 +212,7 @@ def check_decls(decls, radix, order, with_stores, p):
             text = frame(data, "\n".join(lines), order)
             p.evaluations += 1
             try:
-                a = asm.assemble(text, before=before, **simkw)
+                a = asm.assemble(text, before=before_of(text), **(dict(simkw, state=mk_state()) if mk_state else simkw))
                 sim = a.sim
                 n = 0
                 while not sim.is_done() and n < 200:
@@ -204,13 +221,17 @@ def check_decls(decls, radix, order, with_stores, p):
             except Exception as e:  # noqa
                 bad.append(("store-error", f"store-by-name program raised {type(e).__name__}: {getattr(e, 'instruction_repr', e)!r}", text))
                 continue
-            for x in range(DATA, ((end + 3) & ~3) + 8):
+            for x in range(base, ((end + 3) & ~3) + 8):
                 got = int(sim.state.memory.read_byte(x))
                 if got != m2.get(x, 0):
                     bad.append(("stored-byte", f"after the stores the byte at {x:#x} is {got:#x}, expected {m2.get(x, 0):#x}", text))
                     break
             if last is not None and int(sim.state.register_file.registers[2]) != last:
                 bad.append(("store-address-register", f"x2 = {int(sim.state.register_file.registers[2]):#x} after the last store, expected {last:#x}", text))
+    ctxt = ([f"data memory with first address {base:#x}"] if base != DATA else []) + ([f"data cache {simkw['data_cache']}"] if simkw else []) \
+        + [["", "loaded over an earlier program", "loaded, then a program rejected after its data was written, then loaded again"][hist]] * bool(hist)
+    if ctxt:
+        bad = [(f, d + " [" + "; ".join(ctxt) + "]", t) for f, d, t in bad]
     return bad
 
 
@@ -406,4 +427,4 @@ def run(ctx):
     if d:
         part.violation(dict(oracle="example", field="registers"), dict(kind="example"), d)
     ctx.space("help-page-example", part, t0)
-    ctx.require("alignment-after-odd-sized-variable", "string", "zero-reservation", "li-carry-into-upper-part", "variable-behind-a-2KiB-boundary", "loaded-over-an-earlier-program", "assembled-with-a-data-cache")
+    ctx.require("alignment-after-odd-sized-variable", "string", "zero-reservation", "li-carry-into-upper-part", "variable-behind-a-2KiB-boundary", "loaded-over-an-earlier-program", "loaded-again-after-a-rejected-program", "data-memory-with-another-first-address", "assembled-with-a-data-cache")
